@@ -12,6 +12,7 @@ import (
 	"github.com/marekgalovic/anndb/cluster"
 	"github.com/marekgalovic/anndb/index"
 	pb "github.com/marekgalovic/anndb/protobuf"
+	"github.com/marekgalovic/anndb/storage/raft"
 	"github.com/marekgalovic/anndb/utils"
 
 	badger "github.com/dgraph-io/badger/v2"
@@ -181,4 +182,82 @@ func (this *Dataset) VerifPartitionIds() []uuid.UUID {
 		ids[i] = p.id
 	}
 	return ids
+}
+
+// ---- dataset / cluster simulation hooks
+
+// VerifSetClients injects in-memory clients for a peer node (no network).
+func (this *Dataset) VerifSetClients(nodeId uint64, search pb.SearchClient, dm pb.DataManagerClient) {
+	if search != nil {
+		this.searchClientsMu.Lock()
+		this.searchClients[nodeId] = search
+		this.searchClientsMu.Unlock()
+	}
+	if dm != nil {
+		this.dataManagerClientsMu.Lock()
+		this.dataManagerClients[nodeId] = dm
+		this.dataManagerClientsMu.Unlock()
+	}
+}
+
+// VerifPartitionAt wraps the i-th partition (catalogue order) of a dataset.
+func (this *Dataset) VerifPartitionAt(i int) *VerifPartition { return &VerifPartition{this.partitions[i]} }
+func (this *Dataset) VerifPartitionCount() int               { return len(this.partitions) }
+func (this *Dataset) VerifId() uuid.UUID                     { return this.id }
+
+func (v *VerifPartition) Id() uuid.UUID     { return v.p.id }
+func (v *VerifPartition) NodeIds() []uint64 { return append([]uint64{}, v.p.nodeIds()...) }
+func (v *VerifPartition) HasRaft() bool {
+	v.p.raftMu.RLock()
+	defer v.p.raftMu.RUnlock()
+	return v.p.raft != nil
+}
+func (v *VerifPartition) Raft() *raft.RaftGroup {
+	v.p.raftMu.RLock()
+	defer v.p.raftMu.RUnlock()
+	return v.p.raft
+}
+
+// VerifPause, when set, is called at named pause points of the production code
+// ("proposed": a partition proposal was accepted by raft and the caller is about to wait).
+var VerifPause func(point string)
+
+func verifPause(point string) {
+	if f := VerifPause; f != nil {
+		f(point)
+	}
+}
+
+// VerifNode is one simulated cluster member: the objects server.go wires together, over a
+// catalogue group supplied by the harness.
+type VerifNode struct {
+	Conn           *cluster.Conn
+	Transport      *raft.RaftTransport
+	Allocator      *Allocator
+	DatasetManager *DatasetManager
+}
+
+func VerifNewNode(id uint64, db *badger.DB, catalogue raft.Group) (*VerifNode, error) {
+	conn, err := cluster.NewConn(id, fmt.Sprintf("node-%d", id), "")
+	if err != nil {
+		return nil, err
+	}
+	alloc := NewAllocator(conn)
+	tr := raft.NewTransport(id, fmt.Sprintf("node-%d", id), conn)
+	dm, err := NewDatasetManager(catalogue, db, tr, conn, alloc)
+	if err != nil {
+		return nil, err
+	}
+	return &VerifNode{conn, tr, alloc, dm}, nil
+}
+
+// VerifDatasets lists the catalogue of this node.
+func (this *DatasetManager) VerifDatasets() []*Dataset {
+	this.datasetsMu.RLock()
+	defer this.datasetsMu.RUnlock()
+	var r []*Dataset
+	for _, d := range this.datasets {
+		r = append(r, d)
+	}
+	return r
 }
